@@ -48,7 +48,8 @@ def outcomes(repo: Repo, cname: str) -> List[Outcome]:
                 raise AnalysisError(f"anchor vanished: {cname}.process")
             fn = r[1]
         ev = Evaluator(repo, MOD, cname, effect_methods=API)
-        _cache[key] = ev.run_function(fn, {"self": SELF})
+        ps = [a.arg for a in fn.args.args]
+        _cache[key] = ev.run_function(fn, {"self": SELF, **({ps[1]: WRITER} if len(ps) > 1 else {})})
     return _cache[key]
 
 
